@@ -62,9 +62,12 @@ def _ende_eff(end, ann):
 
 
 def scenarios(layout):
-    s = ["complete", "complete", "complete-early", "late-start", "truncated", "ends-31dec", "missing-year", "gap", "startyear-mismatch", "preco"]
+    s = ["complete", "complete", "complete-early", "late-start", "truncated", "ends-31dec", "missing-year", "gap", "startyear-mismatch", "preco",
+         "annual-31dec-covered"]
     if layout != 0:
         s.append("gap-to-jan1")
+    if layout != 2:
+        s.append("wind-height")        # three-line header with a wind measuring height other than 2 m, calm days
     return s
 
 
@@ -76,6 +79,11 @@ def make_case(rnd, idx, layout, scen, long_spans=False):
     if long_spans and rnd.random() < 0.3:
         span = rnd.randrange(800, 2200)
     start, end, ann = _pick_dates(rnd, sy, span)
+    if scen == "annual-31dec-covered":
+        # annual output on 31 December: ENDE is moved to 1 January of the year after the end year, the series covers that day
+        if rnd.random() < 0.3:
+            end = D(end.year, 12, 31)
+        ann = D(end.year, 12, 31)
     eff = _ende_eff(end, ann)
     first = D(sy, 1, 1)
     if scen == "complete-early":
@@ -94,7 +102,14 @@ def make_case(rnd, idx, layout, scen, long_spans=False):
             eff = c["eff"] = _ende_eff(end, ann)
             last = D(eff.year, 12, 31)
         first = D(sy, 1, 1) + datetime.timedelta(days=rnd.randrange(1, (start - D(sy, 1, 1)).days + 1))
-    ser = wxlib.gen_series(rnd, first, last, none=none, p_none=0.004)
+    ser = wxlib.gen_series(rnd, first, last, none=none, p_none=0.004, p_calm=0.35 if scen == "wind-height" else 0.1)
+    c["windhi"] = None
+    if scen == "wind-height":
+        c["windhi"] = rnd.choice(["3.5", "10", "10.0", "1.5"])
+        c["etpot"] = rnd.choice([1, 2, 4])     # ETpot 3 converts g.WIND in place with a logarithm (after the echo): not in the model
+        for d, r in ser:
+            if rnd.random() < 0.12:
+                r["wind"] = rnd.choice(["0", "0.2", "0.49", "0.0"])
     # sentinels at the year ends and one in the middle, wherever they fall inside the series
     for y in range(sy, eff.year + 1):
         for (dd, col) in ((D(y, 12, 31), "tavg"), (D(y + 1, 1, 1), "tavg"), (D(y, 7, 2), "tavg"), (D(y, 3, 1), "rad"), (D(y, 12, 31), "prec")):
@@ -166,7 +181,7 @@ def _run(ctx):
     for c in cases:
         p = "q%03d" % c["idx"]
         ser = c["series"]
-        wcfg = wxlib.write_weather(root, p, c["layout"], "F" + p, ser, skip_years=c["skip_years"])
+        wcfg = wxlib.write_weather(root, p, c["layout"], "F" + p, ser, skip_years=c["skip_years"], windhi=c.get("windhi"))
         cfg = dict(wcfg, WeatherFolder=p, WeatherNoneValue=c["none"], StartYear=c["anjahr"], EndDate=de(c["end"]),
                    AnnualOutputDate="%02d%02d" % (c["ann"].day, c["ann"].month), OutputIntervall=0,
                    ETpot=c["etpot"])
